@@ -319,6 +319,8 @@ func (l recLogger) Append(c commit.Commit) error {
 	return nil
 }
 
+var daemonSeq int64
+
 type daemonCtx struct {
 	context.Context
 	w *World
@@ -357,16 +359,36 @@ func NewWorld(cfg Config) *World {
 	if cfg.Daemon {
 		w.Daemon = vsched.NewDaemon()
 		w.tick = make(chan time.Time, 1)
+		// each hook serves ONE call: the collection's own context and ticker. A library
+		// that starts its cleanup goroutine lazily makes these calls later; the hooks then
+		// stay installed until it does
 		shimctx.WithCancelHook = func(parent shimctx.Context) (shimctx.Context, shimctx.CancelFunc) {
+			shimctx.WithCancelHook = nil
 			return daemonCtx{Context: parent, w: w}, func() { w.Daemon.Cancel() }
 		}
-		shimtime.TickerHook = func(d time.Duration) *time.Ticker { return &time.Ticker{C: w.tick} }
-	}
-	w.C = column.NewCollection(opts)
-	if cfg.Daemon {
-		w.Daemon.WaitParked()
-		shimctx.WithCancelHook = nil
-		shimtime.TickerHook = nil
+		// the collection's cleanup interval is made unique so that its ticker can be told
+		// from the tickers of other collections whose goroutines start around the same time
+		daemonSeq++
+		opts.Vacuum = 977*time.Hour + time.Duration(daemonSeq)*time.Nanosecond
+		mine := opts.Vacuum
+		shimtime.TickerHook = func(d time.Duration) *time.Ticker {
+			if d != mine {
+				return nil
+			}
+			shimtime.TickerHook = nil
+			return &time.Ticker{C: w.tick}
+		}
+		w.C = column.NewCollection(opts)
+		if w.Daemon.WaitParked() {
+			shimctx.WithCancelHook = nil
+			shimtime.TickerHook = nil
+		}
+	} else {
+		// (a pending lazy hook of another world must not capture this collection)
+		ch, th := shimctx.WithCancelHook, shimtime.TickerHook
+		shimctx.WithCancelHook, shimtime.TickerHook = nil, nil
+		w.C = column.NewCollection(opts)
+		shimctx.WithCancelHook, shimtime.TickerHook = ch, th
 	}
 	for _, c := range cfg.Cols {
 		w.CreateColumn(c)
